@@ -60,7 +60,10 @@ def malCodec (env : Env) (op : String) (ty s bs : Sexp) (tag : String) (impl : S
 
 def c06 (op : String) (args : List Sexp) : Verdict :=
   match op, args with
-  | "mal-read", [ty, s, bs, tag, impl] => malCodec timeEnv op ty s bs (tagOf tag) impl
+  | "mal-read", [ty, s, bs, tag, impl] =>
+    if impl.hasAtom "overrun" then .oracle s!"a decoded slice is longer than its capacity: items were stored past the end of the backing array (len cap): {impl}" else
+    if impl.hasAtom "invalid-bool" then .oracle s!"decoding left a bool holding a byte other than 0 or 1 (memory that is not a value of its type): {impl}" else
+    malCodec timeEnv op ty s bs (tagOf tag) impl
   | "mal-skip", [ty, s, bs, tag, impl] => malCodec timeEnv op ty s bs (tagOf tag) impl
   | "crashed-case", [_, .list (.atom op' :: rest), .list [.atom kind]] =>
     let tag := (rest.find? (fun x => match x with | .list [.atom "tag", _] => true | _ => false)).map tagOf |>.getD "?"
